@@ -289,7 +289,7 @@ def check_property(prop, tier, seed, replay=None):
         if not replay:
             try:
                 from . import shrink as S
-                sm = S.shrink(prop, case, strip_meta)
+                sm = S.shrink(prop, case, strip_meta, orig_result=hres.get("r"))
                 if sm is not None and not match_known(pid, sm[0], sm[2], known):
                     original = strip_meta(case)
                     case, hres, desc = sm
